@@ -212,7 +212,7 @@ def run_cal(desc, ctx, out):
                 out["violations"].append(v)
                 return
             r = compare_restore(cal, f2, model, out, wit, "after create_checkpoint" + (" with no batch yet" if batches == 0 else ""))
-            if r is not None and batches == 0 and rng.random() < 0.7:
+            if r is not None and batches == 0 and rng.random() < 0.7 and not cfg.get("real_nonfinite"):
                 # the restored no-batch calibrator must be usable
                 try:
                     with quiet():
